@@ -10,7 +10,11 @@
 #endif
 #define CB_CALLS 1
 #include "stream_cb.h"
+#ifdef LHASA_VERIF_RING_BUFFER_SIZE
+#define RING LHASA_VERIF_RING_BUFFER_SIZE      /* scaled window (hook in lib/lz5_decoder.c): same ring arithmetic, everything symbolic */
+#else
 #define RING 4096
+#endif
 
 #ifdef RUN_HARNESS
 /* recording stubs for the kernel (the real definitions are renamed real_* by the driver) */
@@ -95,7 +99,7 @@ void harness_kernel(void)
 	LHALZ5Decoder d0;
 	size_t n;
 	ASSUME(pos0 < RING && probe < RING && start < RING && len >= 3 && len <= 18 && idx < 18);
-	ASSUME(fill <= OUTPUT_BUFFER_SIZE - 18);
+	ASSUME(fill <= OUTPUT_BUFFER_SIZE - 19);     /* the copy (<= 18) and the literal behind it fit */
 	dec = d0;
 	dec.ringbuf_pos = pos0;
 	n = fill;
@@ -120,6 +124,44 @@ void harness_kernel(void)
 		output_byte(&dec, out, &n, lit);
 		CHECK(n == n1 + 1 && out[n1] == lit && dec.ringbuf[p1] == lit && dec.ringbuf_pos == (p1 + 1) % RING, "literal appended to output and ring");
 	}
+	if (len == 18 && (start + 2) % RING == pos0 && pos0 > RING - 9) WITNESS("maximal self-overlapping copy across the seam");
+	WITNESS("kernel");
+}
+
+/* the same kernel against the SEQUENTIAL definition of an LZ77 copy (byte i is the ring content at start+i at the moment
+ * it is copied, and is appended to ring and output before byte i+1 is looked at); used on the scaled window, where
+ * seam crossing and self-overlap combine in every way and the closed form above becomes SAT-hard */
+void harness_kernel_seq(void)
+{
+	INPUT(u32, pos0);
+	INPUT(u32, start);
+	INPUT(u32, len);
+	INPUT(u32, fill);
+	u8 out[OUTPUT_BUFFER_SIZE];
+	u8 r[RING];
+	LHALZ5Decoder d0;
+	size_t n;
+	unsigned i, rp;
+	ASSUME(pos0 < RING && start < RING && len >= 3 && len <= 18);
+	ASSUME(fill <= OUTPUT_BUFFER_SIZE - 18);
+#ifdef KPOS
+	pos0 = KPOS; fill = 0;     /* concrete write position per variant: every WRITE then has a concrete index, reads stay symbolic */
+#endif
+	dec = d0;
+	dec.ringbuf_pos = pos0;
+	for (i = 0; i < RING; ++i) r[i] = d0.ringbuf[i];
+	rp = pos0;
+	n = fill;
+	output_block(&dec, out, &n, start, len);
+	CHECK(n == fill + len, "copy appends exactly len bytes to the output");
+	for (i = 0; i < 18; ++i) if (i < len) {
+		u8 b = r[(start + i) % RING];
+		CHECK(out[fill + i] == b, "copy byte i is the window content at start+i when it is copied (sequential LZ77 semantics)");
+		r[rp] = b; rp = (rp + 1) % RING;
+	}
+	CHECK(dec.ringbuf_pos == rp, "write position advances modulo the window size");
+	for (i = 0; i < RING; ++i) CHECK(dec.ringbuf[i] == r[i], "window after the copy = window with the copied bytes appended");
+	if (len == 18 && start > RING - 9 && pos0 < 9 && (start + 18) % RING > pos0) WITNESS("source crosses the seam and runs into the bytes being written");
 	if (len == 18 && (start + 2) % RING == pos0 && pos0 > RING - 9) WITNESS("maximal self-overlapping copy across the seam");
 	WITNESS("kernel");
 }
